@@ -12,16 +12,16 @@ from lib.core import zlit
 MANIFEST = {
     'text': 'Coq (Irred.v, as-coded models of _is_irreducible/_next_irreducible of both classes and find_irreducible): '
             'bounded-exhaustive theorems, bound in the statement, proved by vm_compute + forallb_forall: for every integer '
-            'encoding a below 2^10 (binary class and generic class at p=2), 3^5, 5^3, 7^3 the Ben-Or test equals the brute-force '
-            'test "degree >= 1 and no divisor of degree 1..deg-1" computed inside Coq by trial division; on the same domains '
-            'binary next_irreducible returns the least irreducible above its argument; for the generic class the statement '
+            'encoding a below 2^10 (binary class and generic class at p=2), 3^6, 5^4, 7^3 the Ben-Or test equals the brute-force '
+            'test "degree >= 1 and no divisor of degree 1..deg-1" computed inside Coq by trial division; for a < 2^10 '
+            'binary next_irreducible returns the least irreducible above its argument and find_irreducible(2,d), d<=12, the least of degree d; for the generic class the statement '
             '"next_irreducible returns the least irreducible above a" is REFUTED in Coq (next_irred_generic_refuted, witness '
             'p=3, a=0: the model returns X+1 although X is irreducible), replayed on the implementation = finding F-C24-1; the '
-            'restriction to arguments >= p (X no longer a candidate) is proved on the bounded domains. Every run compares '
+            'restriction to arguments >= p (X no longer a candidate) is proved for a below 2^9, 3^5, 5^4, 7^3, and that every a < p yields X+1 for p in {3,5,7,11,13}. Every run compares '
             'model and implementation exactly on all polynomials below 2^12 (both classes), 3^6, 5^4, 7^3 and checks the '
             'implementation against a brute-force sieve, including finfields.GF acceptance.',
     'note': 'Trusted: Coq kernel + vm_compute; the models in Irred.v/Gfpx.v/Gf2x.v tied by exact comparison. NOT proved for '
-            'unbounded degree: completeness/soundness of the Ben-Or test for all polynomials (needs the factorisation of '
+            'unbounded degree: (also the soundness direction "reported reducible => has a factor" is not proved: the gcd found may be the polynomial itself) completeness/soundness of the Ben-Or test for all polynomials (needs the factorisation of '
             'X^(p^i) - X; only the bounded-exhaustive version is a theorem), next_irreducible for all a, find_irreducible '
             'smallest for all (p,d) (bounded instances only). GF/xGF acceptance is is_irreducible by inspection of '
             'finfields.xGF (modelled as gf_accepts := is_irreducible) and checked on the implementation against the sieve. '
